@@ -881,6 +881,7 @@ type zzC07Q struct {
 	SigData              []int
 	SigOldest            int
 	HasSig               bool
+	Tag                  string
 }
 
 func (q *zzC07Q) UnmarshalJSON(b []byte) (err error) {
@@ -889,8 +890,16 @@ func (q *zzC07Q) UnmarshalJSON(b []byte) (err error) {
 		return err
 	}
 
-	if len(raw) != 9 {
+	if len(raw) != 9 && len(raw) != 10 {
 		return fmt.Errorf("query tuple of length %d", len(raw))
+	}
+
+	if len(raw) == 10 {
+		// The orchestrator's tag of the row: which part of the observation
+		// table it comes from.
+		if err = json.Unmarshal(raw[9], &q.Tag); err != nil {
+			return err
+		}
 	}
 
 	dst := []any{&q.Older, &q.Limit, &q.Offset, &q.Term, &q.Status, &q.Class, &q.Data, &q.Oldest}
@@ -1469,6 +1478,7 @@ type zzC07Harness struct {
 	steps, queries, bad, flaky, discards, walks, coveredN, transit, unobservable int
 	actCov                                                                        map[string]int
 	sigCount                                                                      map[string]int
+	visits                                                                        map[int]int
 }
 
 // zzC07Run is one walk on one real object.
@@ -1676,14 +1686,29 @@ func (h *zzC07Harness) reportQuery(run *zzC07Run, row *zzC07StateRow, q *zzC07Q,
 }
 
 // observe puts the observation table of the current state to the real
-// handler.  lite: only the unfiltered full listing (with the payload
-// comparison) and the default request.
+// handler.  lite (a step that only moves to where uncovered edges are): only
+// the unfiltered full listing (with the payload comparison) and the default
+// request.  From the third covering arrival in the same state on, the filter
+// selections and the odd limit/offset rows are not repeated; the full listing,
+// all pagings and all cursors always are.
 func (r *zzC07Run) observe(lite bool) {
 	h := r.h
 	row := h.in.states[r.cur]
+	reduced := false
+	if !lite {
+		h.mu.Lock()
+		h.visits[r.cur]++
+		reduced = h.visits[r.cur] > 2
+		h.mu.Unlock()
+	}
+
 	for qi, q := range row.table() {
 		if lite && qi > 1 {
 			break
+		}
+
+		if reduced && qi > 0 && (q.Tag == "f" || q.Tag == "x") {
+			continue
 		}
 
 		rep := r.x.search(q)
@@ -2018,7 +2043,7 @@ func TestZZVerifC07Walk(t *testing.T) {
 	h := &zzC07Harness{
 		t: t, in: in, out: &zzC07Out{w: w}, base: t.TempDir(), seed: zzSeed(),
 		dead: map[int]bool{}, rng: rand.New(rand.NewSource(zzSeed())), actCov: map[string]int{},
-		sigCount: map[string]int{},
+		sigCount: map[string]int{}, visits: map[int]int{},
 	}
 
 	// Explicit walks (replay of a stored disagreement).
@@ -2029,7 +2054,8 @@ func TestZZVerifC07Walk(t *testing.T) {
 	if len(in.groups) > 0 {
 		// Every search of the code under test allocates its 1.6 MB read
 		// buffer anew; collect less often.
-		defer debug.SetGCPercent(debug.SetGCPercent(1600))
+		defer debug.SetGCPercent(debug.SetGCPercent(800))
+		defer debug.SetMemoryLimit(debug.SetMemoryLimit(3 << 30))
 
 		if in.cfg.WalkLen <= 0 {
 			in.cfg.WalkLen = 40
